@@ -2,7 +2,7 @@ from .base import *
 
 ID = 'C05'
 THEOREMS = ['C05_mul', 'C05_mul_spellings', 'C05_mul_comm', 'C05_mul_one', 'C05_mul_angle', 'C05_scale',
-            'C05_angle_mul', 'C05_inv', 'C05_inv_angle', 'C05_div_spellings', 'C05_normalize', 'C05_pow_mag']
+            'C05_angle_mul', 'C05_inv', 'C05_inv_angle', 'C05_div_spellings', 'C05_normalize', 'C05_pow_mag', 'C05_assoc', 'C05_inv_inv']
 OWNED = {'GMul', 'GDiv', 'GDivM', 'GInv', 'GScale', 'GNormalize', 'GPow', 'AMulG', 'AAddG'}
 RULE = ('pairs/triples of geometric numbers from the C01 domain (magnitudes 0, 1, 1e+-100, k-ulp neighbours, log-uniform; remainder threshold classes; blades to 2^40): '
         'all 4 spellings of * and /, the div method, Angle*Geonum and Angle+Geonum in both forms, scale by {0,-0,+-1,+-tiny,+-huge,random}, inv, normalize, pow, identity, commutativity, associativity; '
@@ -74,5 +74,5 @@ def generate(rng, tier):
 LEVEL_TEXT = ('Kernel-checked theorems about the model for ALL operands: product = (fmul of magnitudes, geometric_add of angles) in all 4 spellings, bit-for-bit commutative, '
               '[1,0] is an identity, angle of the product canonical with blade carry in {0,1} and total within 1e-10+2^-51; scale multiplies by |f| and adds exactly 2 blades iff f<0; '
               'Angle*Geonum / Angle+Geonum only rotate; inv/normalize panic exactly on zero magnitude, inv = (1/mag, +2 blades); the 5 division spellings equal a * inv b; pow magnitude is powF. '
-              'Associativity and inv(inv g) are decided by predicate search (S3).')
-LEVEL_NOTE = ('Trusted: Coq kernel + vm_compute; 4 standard-library axioms; hand-written model validated bit-for-bit each run; harness/emitter/predicates; glibc pow only through the model parameter L (no assumption used by these theorems).')
+              'C05_assoc: (ab)c and a(bc) have magnitudes within 5*2^-53 relative (+2^-572) and angle totals within four addition tolerances (also with the REAL pi, +2e-16). C05_inv_inv: inv(inv g) has the original magnitude within 5*2^-52 relative and the original angle plus exactly four blades, remainder untouched (magnitudes in [2^-500, 2^500]). The pow angle is decided by predicate search (S3).')
+LEVEL_NOTE = ('Trusted: Coq kernel + vm_compute; 4 standard-library axioms; plus the primitive-integer axioms (PrimInt63.*, Uint63.*_spec) of the Interval tactic for the real-pi clause of C05_assoc; hand-written model validated bit-for-bit each run; harness/emitter/predicates; glibc pow only through the model parameter L (no assumption used by these theorems).')
